@@ -80,7 +80,7 @@ def _doc_notifications():
     for mn, cn, _l, _d in found:
         E, node = c09._load_fixture(mn, cn)
         if node.tag == "notification" and E.__name__ not in ("NotificationProtocolEntity", "PictureNotificationProtocolEntity"):
-            out[E.__name__] = node
+            out[E.__name__] = SC.realistic(node, E.__name__)
     for name in ("AddGroupsNotification", "CreateGroupsNotification", "RemoveGroupsNotification", "SubjectGroupsNotification", "ContactsSyncNotification",
                  "IdentityChangeNotification"):
         out[name] = T._sample(name)[1]
